@@ -444,3 +444,28 @@ func init() {
 		r("Disconnect", "sendDisconnectRequest", "disconnect-marks-clock", "clock[clientId] := -1", "", "a disconnected client's clock is -1 from then on"),
 	)
 }
+
+func init() {
+	// the Raft client's request path and the crash model (from the survivors of the specification sweep)
+	const R = "RAFT-DECISION"
+	r := func(unit, label, key, effect, cond, why string) specRow {
+		return specRow{rule: R, pair: "raftkvs", unit: unit, label: label, key: key, effect: effect, cond: cond, why: why}
+	}
+	x := func(unit, label, key, effect, expr, cond, why string) specRow {
+		return specRow{rule: R, pair: "raftkvs", unit: unit, label: label, key: key, effect: effect, expr: expr, cond: cond, why: why}
+	}
+	specTable(
+		r("AClient", "sndReq", "picks-a-server-only-when-no-leader-is-known", "leader := srv", "leader = Nil", "a client keeps talking to the leader it knows; it picks some server only when it knows none"),
+		r("AClient", "sndReq", "put-request", "net[leader__new] := [mtype |-> ClientPutRequest, mcmd |-> [idx |-> reqIdx, type |-> Put, key |-> req.key, value |-> req.value], msource |-> self, mdest |-> leader__new]",
+			"req.type = Put", "a Put goes to the (possibly just chosen) leader with the current request index, the key and the value"),
+		r("AClient", "sndReq", "get-request", "net[leader__new] := [mtype |-> ClientGetRequest, mcmd |-> [idx |-> reqIdx, type |-> Get, key |-> req.key], msource |-> self, mdest |-> leader__new]",
+			"req.type # Put /\\ req.type = Get", "a Get goes to the leader with the current request index and the key"),
+		x("AClient", "rcvResp", "asserts-own-response", "assert", "resp__new.mdest = self", "", "a client reads responses addressed to it"),
+		x("AClient", "rcvResp", "asserts-response-kind", "assert", "(req.type = Get => resp__new.mtype = ClientGetResponse) /\\ (req.type = Put => resp__new.mtype = ClientPutResponse)", "~(resp__new.mresponse.idx # reqIdx)",
+			"the response to the current request is of the request's kind"),
+		r("AClient", "rcvResp", "learns-leader-from-current-response", "leader := resp__new.mleaderHint", "~(resp__new.mresponse.idx # reqIdx)", "the leader hint is taken from responses to the current request only"),
+		r("AClient", "rcvResp", "forgets-suspected-leader", "leader := Nil", "(fd[leader] /\\ netLen[self] = 0) \\/ timeout", "a suspected or silent leader is forgotten before the request is re-sent"),
+		r("AServerCrasher", "serverCrash", "crash-cuts-the-network", "netEnabled[srvId] := FALSE", "", "a crashed server's mailbox is disabled"),
+		r("AServerCrasher", "fdUpdate", "crash-is-detected", "fd[srvId] := TRUE", "", "a crashed server is eventually reported by the failure detector"),
+	)
+}
